@@ -88,9 +88,20 @@ class Grid(col.MutableSequence):
             return isinstance(v2, Coordinate) and \
                    Grid._approx_check(v1.latitude, v2.latitude) and \
                    Grid._approx_check(v1.longitude, v2.longitude)
+        elif isinstance(v2, (datetime.time, datetime.datetime,
+                             Quantity, Coordinate)):
+            # v1 is none of these kinds (a Quantity would otherwise compare
+            # equal to a plain number from one side only)
+            return False
+        elif isinstance(v1, bool) or isinstance(v2, bool):
+            # a boolean is not a number
+            return isinstance(v1, bool) and isinstance(v2, bool) and v1 == v2
         elif isinstance(v1, float) or isinstance(v2, float):
-            return isinstance(v1, numbers.Number) and \
-                   isinstance(v2, numbers.Number) and \
+            if not (isinstance(v1, numbers.Number) and
+                    isinstance(v2, numbers.Number)):
+                return False
+            # NaN, INF and -INF are equal to themselves in a grid
+            return (v1 == v2) or (v1 != v1 and v2 != v2) or \
                    abs(v1 - v2) < 0.000001
         else:
             return v1 == v2
